@@ -393,4 +393,29 @@ CHECKS = {
              "thorough": {"checks": 400, "shards": 16, "timeout": 3400}},
         ],
     },
+    "C14": {
+        "level": "exploration",
+        "level_text": ("Real thruserv processes are started with generated limit configurations and hit with concurrent bursts (8-32 "
+                       "simultaneous session creates / receiver joins / socket upgrades released together), messages of drawn sizes and "
+                       "message floods at drawn rates. Schedule-independent oracles: live sessions that received 201 <= max-sessions; "
+                       "receivers connected at once <= max-receivers-per-sender; open sockets <= max-ws-connections; no message longer "
+                       "than max-message-bytes is delivered and one within the limit is; messages delivered in a client-measured interval "
+                       "<= burst + rate x dt (+1); with a limit of 0 a run that exceeds the default is never refused. Lifetime: a join "
+                       "right after creation is admitted, one 0.5 s after the configured lifetime or 0.3 s after the host left is refused "
+                       "with 404. In-process: rapid create/delete/lookup/expire sequences on session.Store against a map model "
+                       "(live codes distinct, dead codes not found)."),
+        "level_note": "The collision-retry loop of Store.Create cannot be reached by search (32^8 codes); lifetime verdicts have a +-0.5 s blind zone; per-IP rate limits are exercised from one loopback address.",
+        "technique": "concurrent-burst and generated-configuration testing of the real server binary with counting oracles (rapid + fixed probe set), plus a model-based store test",
+        "rule": ("probe = (limit kind, limit value, burst size / message size / rate); non-trivial = the burst actually hit the limit "
+                 "(>= 1 refusal) or probed a 0 = unlimited setting or a lifetime boundary; distinct by probe parameters."),
+        "assumptions": ["a client-measured interval contains the server-side interval, so rate bounds computed from it are sound"],
+        "units": [
+            {"name": "srv", "pkg": "./internal/verifsrv", "run": "^TestVerifC14", "binaries": ["thruserv"],
+             "quick": {"checks": 12, "shards": 6, "timeout": 900},
+             "thorough": {"checks": 150, "shards": 16, "timeout": 3400}},
+            {"name": "session", "pkg": "./internal/session", "run": "^TestVerifC14",
+             "quick": {"checks": 300, "shards": 2, "timeout": 900},
+             "thorough": {"checks": 4000, "shards": 8, "timeout": 3400}},
+        ],
+    },
 }
